@@ -194,7 +194,9 @@ func (d msgDesc) nonce() uint32 { return uint32(1000 + d.id + 7*d.bv) }
 func (d msgDesc) publication() *common.MessagePublication {
 	ec, ea := d.emitter()
 	return &common.MessagePublication{
-		TxHash:           ethcommon.BytesToHash(crypto.Keccak256([]byte("tx"), []byte(strconv.FormatInt(d.m, 10)))),
+		// one message = one originating transaction: descriptors that differ only in the sub-second
+		// part of the timestamp are the same message (same digest) and share the transaction
+		TxHash:           ethcommon.BytesToHash(crypto.Keccak256([]byte("tx"), d.digest())),
 		Timestamp:        d.timestamp(),
 		Nonce:            d.nonce(),
 		Sequence:         d.sequence(),
@@ -354,8 +356,10 @@ type world struct {
 	stepIdx  int
 	curStep  simkit.Step
 
-	maxDt        time.Duration
-	deliveryStep bool
+	maxDt         time.Duration
+	everPublished map[string]int
+	pastSummaries string
+	deliveryStep  bool
 
 	nPublished, nRejected, nAcceptedObs, nStoredInbound, nRetries, nExpired, nEarlyObs int
 }
@@ -745,6 +749,7 @@ func (w *world) runStep(i int, st simkit.Step) {
 		w.db = dbn
 		w.newProcessor()
 		w.cur = nil
+		w.pastSummaries += w.acceptedSummary() + "|restart|"
 		w.digests = map[string]*digestModel{}
 		w.stats.Fault("node-restart")
 	default:
@@ -1211,6 +1216,7 @@ func (w *world) checkPublication(st simkit.Step, vb []byte) {
 		}
 	}
 	m.published++
+	w.everPublished[h]++
 	m.publishedAt = time.Now()
 	if m.published > 1 {
 		w.violate("C02", "published-twice", "digest %s published %d times in one aggregation lifetime", h[:16], m.published)
@@ -1519,10 +1525,10 @@ type procHarness struct{ t *testing.T }
 
 func (procHarness) Name() string { return "procsim" }
 
-func (h procHarness) Exec(p *simkit.Program) *simkit.Result {
+func (h procHarness) execOnce(p *simkit.Program) (*simkit.Result, *world) {
 	res := &simkit.Result{Seed: p.Seed, Prop: p.Prop, Steps: len(p.Steps)}
 	w := &world{t: h.t, prog: p, res: res, log: &simkit.Log{}, stats: simkit.NewStats(), prop: p.Prop,
-		digests: map[string]*digestModel{}, universe: map[string]msgDesc{}, store: map[string][]byte{}}
+		digests: map[string]*digestModel{}, universe: map[string]msgDesc{}, store: map[string][]byte{}, everPublished: map[string]int{}}
 	w.own = int(p.C("own", 0)) % nKeys
 	w.loop = p.C("loop", 0) == 1
 	w.reqCap = int(p.C("reqcap", 50))
@@ -1623,7 +1629,189 @@ func (h procHarness) Exec(p *simkit.Program) *simkit.Result {
 		}
 	}
 	res.Violations = keep
+	return res, w
+}
+
+// Exec runs the program; for C02 it additionally re-executes it under permutations of its
+// delivery steps (confluence check, DESIGN.md C02): the set of published digests must not depend
+// on arrival order, duplication or loopback timing.
+func (h procHarness) Exec(p *simkit.Program) *simkit.Result {
+	res, w := h.execOnce(p)
+	k := int(p.C("confluence", 0))
+	if p.Prop != "C02" || k <= 0 || len(res.Violations) > 0 || res.HarnessErr != "" || w.loop {
+		return res
+	}
+	// The arrival-order clause is checked on pure aggregation programs only: one guardian set, every
+	// message observed once, deliveries and loopbacks. Set changes, re-observations, peer VAAs plus
+	// cleanup ticks and restarts re-base or drop aggregation state at a point in time, so the outcome
+	// may legitimately depend on which side of that point a delivery falls.
+	nset, seenMsg := 0, map[int64]bool{}
+	for _, st := range p.Steps {
+		switch st.Op {
+		case "set":
+			nset++
+		case "msg":
+			if seenMsg[st.A] {
+				return res
+			}
+			seenMsg[st.A] = true
+		case "obs", "loop":
+		default:
+			return res
+		}
+	}
+	if nset != 1 || p.Steps[0].Op != "set" {
+		return res
+	}
+	// identifier collisions (same VAA id, other body) make the store order-dependent by design
+	ids := map[string]int64{}
+	for _, st := range p.Steps {
+		var m int64
+		switch st.Op {
+		case "msg", "inj", "vaa":
+			m = st.A
+		case "obs":
+			m = st.B
+		default:
+			continue
+		}
+		d := decodeMsg(m)
+		if prev, ok := ids[d.idKey()]; ok && prev != d.m {
+			return res
+		}
+		ids[d.idKey()] = d.m
+	}
+	// "its own included": the statement's arrival-order clause presupposes that the node is a member
+	// of the sets it aggregates under (a non-member's loopback cannot trigger the aggregation)
+	for _, st := range p.Steps {
+		if st.Op == "set" {
+			member := false
+			for _, k := range parseSet(st.A, st.X).keys {
+				if k == w.own {
+					member = true
+				}
+			}
+			if !member {
+				return res
+			}
+		}
+	}
+	base, baseModel := w.publishedSet(), w.acceptedSummary()
+	for j := 1; j <= k; j++ {
+		p2 := permuteDeliveries(p, uint64(j))
+		r2, w2 := h.execOnce(p2)
+		if r2.HarnessErr != "" {
+			res.HarnessErr = "confluence run: " + r2.HarnessErr
+			return res
+		}
+		res.Probes["confluence-permutations"]++
+		for _, v := range r2.Violations {
+			v.Key = "permuted:" + v.Key
+			v.Detail = fmt.Sprintf("(under delivery permutation %d) %s", j, v.Detail)
+			res.Violations = append(res.Violations, v)
+		}
+		if w2.acceptedSummary() != baseModel {
+			// the order changed which signatures the node had to accept (e.g. a re-observation under a
+			// newer guardian set moved in front of a signature): outcomes may legitimately differ
+			res.Probes["confluence-model-differs"]++
+			continue
+		}
+		if got := w2.publishedSet(); got != base && len(r2.Violations) == 0 {
+			res.Log = append(res.Log, "=== permuted execution ===")
+			for i, st := range p2.Steps {
+				res.Log = append(res.Log, fmt.Sprintf("perm %d %s", i, st))
+			}
+			res.Log = append(res.Log, r2.Log...)
+			res.Violations = append(res.Violations, simkit.Violation{Prop: "C02", Key: "publication-depends-on-arrival-order", Step: -1,
+				Detail: fmt.Sprintf("the same multiset of deliveries in another order (permutation %d) publishes a different set of messages: %s vs %s", j, got, base)})
+		}
+		if len(res.Violations) > 0 {
+			return res
+		}
+	}
 	return res
+}
+
+// acceptedSummary renders the model's final accepted-signature sets and snapshots per digest.
+func (w *world) acceptedSummary() string {
+	var hs []string
+	for h := range w.digests {
+		hs = append(hs, h)
+	}
+	sort.Strings(hs)
+	var sb strings.Builder
+	sb.WriteString(w.pastSummaries)
+	for _, h := range hs {
+		m := w.digests[h]
+		var as []string
+		for a := range m.accepted {
+			as = append(as, a[:8])
+		}
+		sort.Strings(as)
+		fmt.Fprintf(&sb, "%s obs=%v snap=%s acc=%v;", h[:12], m.observed, m.snapshot, as)
+	}
+	return sb.String()
+}
+
+func (w *world) publishedSet() string {
+	var ds []string
+	for h, n := range w.everPublished {
+		if n > 0 {
+			ds = append(ds, h[:12])
+		}
+	}
+	sort.Strings(ds)
+	return strings.Join(ds, ",")
+}
+
+// permuteDeliveries shuffles the delivery steps (msg, inj, obs, vaa, loop) between barriers
+// (set, tick, restart), duplicates a few observations, and appends the loopback deliveries the
+// shuffle may have moved in front of their observation.
+func permuteDeliveries(p *simkit.Program, j uint64) *simkit.Program {
+	r := simkit.NewRng(p.Seed*1000003+j, "permute")
+	q := *p
+	q.Steps = nil
+	var seg []simkit.Step
+	flush := func() {
+		for i := len(seg) - 1; i > 0; i-- {
+			k := r.Intn(i + 1)
+			seg[i], seg[k] = seg[k], seg[i]
+		}
+		n := 0
+		for _, st := range seg {
+			q.Steps = append(q.Steps, st)
+			if st.Op == "obs" && r.P(0.15) {
+				q.Steps = append(q.Steps, st) // duplicate delivery
+			}
+			if st.Op == "msg" || st.Op == "inj" {
+				n++
+			}
+		}
+		for i := 0; i < n; i++ {
+			q.Steps = append(q.Steps, simkit.Step{Op: "loop"})
+		}
+		seg = seg[:0]
+	}
+	observed := map[int64]bool{}
+	for _, st := range p.Steps {
+		switch {
+		case st.Op == "set" || st.Op == "tick" || st.Op == "restart":
+			flush()
+			q.Steps = append(q.Steps, st)
+		case (st.Op == "msg" || st.Op == "inj") && observed[st.A]:
+			// a re-observation re-bases the aggregation on the set in force now; where it falls
+			// relative to the deliveries legitimately matters, so it stays where it is
+			flush()
+			q.Steps = append(q.Steps, st, simkit.Step{Op: "loop"})
+		default:
+			if st.Op == "msg" || st.Op == "inj" {
+				observed[st.A] = true
+			}
+			seg = append(seg, st)
+		}
+	}
+	flush()
+	return &q
 }
 
 func TestVerifSim(t *testing.T) {
